@@ -138,7 +138,7 @@ Theorem C15_accept_welltyped_kind_partial :
 Proof. exact accept_kind_partial. Qed.
 Print Assumptions C15_accept_welltyped_kind_partial.
 
-(* CONST part of cwt: refuted twice ... *)
+(* CONST part of cwt: refuted (a window passed by name) ... *)
 Theorem C15_accept_welltyped_const_refuted_window_by_name :
   exists c prog order aps i q,
     c_dflt c <> PR /\ backend_checks c prog order = Ok aps /\ In (i, q) aps /\
@@ -148,17 +148,19 @@ Theorem C15_accept_welltyped_const_refuted_window_by_name :
 Proof. exact const_refuted_window_by_name. Qed.
 Print Assumptions C15_accept_welltyped_const_refuted_window_by_name.
 
-Theorem C15_accept_welltyped_const_refuted_window_of_window :
-  exists c prog order aps i q,
-    c_dflt c <> PR /\ backend_checks c prog order = Ok aps /\ In (i, q) aps /\
-    cwt_const (ctypes (c_dflt c) (build_W prog) (sigs_of prog) q) = false /\
-    (* an assignment through a window variable declared `struct exo_win_1f32c` (src_buf = an intermediate window) *)
-    In (OLval true) (ctypes (c_dflt c) (build_W prog) (sigs_of prog) q).
-Proof. exact const_refuted_window_of_window. Qed.
-Print Assumptions C15_accept_welltyped_const_refuted_window_of_window.
+(* (the second refutation, a window of a window variable after inline, is gone: since the fix "a window of a window
+   variable must take its const-ness from the root buffer" the former witness is well-typed and within hyp_proc) *)
+Theorem C15_accept_welltyped_window_of_window :
+  exists aps q,
+    backend_checks (cfg M_dram) d4_prog d4_order = Ok aps /\ In (0, q) aps /\
+    hyp_proc F32 (sigs_of d4_prog) q = true /\
+    cwt (ctypes F32 (build_W d4_prog) (sigs_of d4_prog) q) = true /\
+    In (OLval false) (ctypes F32 (build_W d4_prog) (sigs_of d4_prog) q).
+Proof. exact window_of_window_welltyped. Qed.
+Print Assumptions C15_accept_welltyped_window_of_window.
 
-(* ... and true for procedures that pass windows only as window expressions and whose window statements record the
-   root buffer as src_buf (hyp_proc): every assignment target is non-const, every argument has exactly the
+(* ... and true for procedures that pass windows only as window expressions and whose window statements record a
+   name of the source's alias chain as src_buf (hyp_proc; windows of windows included): every assignment target is non-const, every argument has exactly the
    parameter's const-ness (struct) or a compatible one (pointer), every window struct literal is initialised from a
    pointer it may hold *)
 Theorem C15_accept_welltyped_const_partial :
